@@ -341,6 +341,33 @@ func runCheck(repo, verif, prop, tier, fnFilter string, relock, verbose bool) in
 	close(work)
 	swg.Wait()
 
+	// second chance: an obligation that ran out of time while the pool kept every core busy is
+	// solved again with the machine to itself (one query at a time, its portfolio in parallel,
+	// twice the time). This only ever turns "no answer" into a proof; a "sat" stays a "sat".
+	var late []*Obligation
+	for _, o := range obls {
+		if o.Struct || o.Kind == "vacuity" || o.vc == nil {
+			continue
+		}
+		if o.Res.Status != "timeout" && o.Res.Status != "unknown" {
+			continue
+		}
+		if knownEarly.find(prop, o.Name) != nil {
+			continue
+		}
+		late = append(late, o)
+	}
+	if len(late) > 6 {
+		late = nil // not a scheduling accident: report them as they are
+	}
+	for _, o := range late {
+		r := solve(o.vc.script(o, false), 2*timeout, confirm)
+		if r.Status == "unsat" {
+			r.Solver += " (second pass)"
+			o.Res = r
+		}
+	}
+
 	// verdicts
 	lock := readLock(verif, prop)
 	known := readKnown(verif)
